@@ -52,10 +52,49 @@ CLASSES = ["ends", "interleaved", "aligned", "zero", "tight", "exceptions"]
 
 def plan(tier):
     n = 2500 if tier == "quick" else 400000
-    return [(c, n) for c in CLASSES]
+    return [(c, n) for c in CLASSES] + \
+        [("many", 32 if tier == "quick" else 600)]
+
+
+def gen_many(rng):
+    """hundreds to thousands of small adjacent reservations at the ends of
+    one resource (a heap cut up by earlier tenants), vertices filling what is
+    left"""
+    w = rng.choice([1, 2])
+    n_res = rng.choice([300, 999, 1000, 1001, 1500, 2500])
+    unit = rng.choice([1, 16])
+    free = unit * rng.randint(1, 40)
+    n_end = rng.choice([0, 0, n_res // 2, n_res])
+    size = unit * (n_res + n_end) + free
+    m = dict(w=w, h=1, res={"Cores": 18, "SDRAM": size}, exc={},
+             dead_chips=[], dead_links=[])
+    cons = [("reserve", "SDRAM", i * unit, (i + 1) * unit, None)
+            for i in range(n_res)]
+    loc_end = rng.choice([None, (0, 0)])
+    cons += [("reserve", "SDRAM", size - (i + 1) * unit, size - i * unit,
+              loc_end) for i in range(n_end)]
+    if rng.random() < .5:
+        rng.shuffle(cons)
+    vertices, placements = [], []
+    vid = 0
+    for x in range(w):
+        left = free + (unit * n_end if loc_end is not None and x != 0 else 0)
+        while left > 0 and len(vertices) < 40 * (x + 1):
+            q = min(left, unit * rng.randint(1, 8))
+            if rng.random() < .2:
+                q = left
+            vertices.append((vid, {"SDRAM": q, "Cores": rng.choice([0, 0, 1])
+                                   if vid % 18 else 0}))
+            placements.append((vid, (x, 0)))
+            vid += 1
+            left -= q
+    return dict(machine=m, vertices=vertices, nets=[], constraints=cons,
+                placements=placements)
 
 
 def gen(cls, idx, rng, tier):
+    if cls == "many":
+        return gen_many(rng)
     m = par.gen_machine(rng, max_w=4, max_h=4,
                         p_exc=0.9 if cls == "exceptions" else 0.3,
                         res={"Cores": rng.choice([1, 4, 18]),
